@@ -502,7 +502,7 @@ def execute(plan):
             data = refdec.enc_sd_message(entries, sid, reboot=flag, unicast=op.get("uf", True))
             sim.inject(t, r.addr, NODE_ADDR, op["ch"], data)
         elif k == "raw":
-            sim.inject(t, rogues[op["p"]].addr, NODE_ADDR, op["ch"], bytes.fromhex(op["hex"]))
+            sim.inject(t, rogues[op["p"]].addr, SVC_ADDR if op.get("to") == "svc" else NODE_ADDR, op["ch"], bytes.fromhex(op["hex"]))
         elif k == "req":
             # SOME/IP message(s) for the service endpoint, coalesced into one datagram
             data = b"".join(
